@@ -80,9 +80,15 @@ CLAIMED = {
  "C16": C('Proved: C16_wire_terminated and C16_roundtrip (for every body with CR only in CRLF, in ANY partition into Write calls and for ANY backend read sizes, dot-writer composed with the DATA reader delivers exactly the body with bare LF -> CRLF and a final CRLF ensured, and the command stream resumes behind the marker), C16_partition_independent, C16_roundtrip_progress, C16_second_close. Implementation: what the client writes is read back with the DATA specification; e2e probe real client -> real server (token bodies, 500-9000-octet bodies around buffer boundaries, partitions, verdicts, stale writer handles).',
           'DESIGN.md 0.3 + 7 C16', 'Lean 4 proof (dot writer o DATA reader) + specification read-back + differential correspondence (cconv, e2e probes)',
           "textproto.dotWriter and bufio.Writer are modelled (tied by the cconv correspondence); 'Close returns the server's verdict' is decided by the e2e judge"),
- "C17": C("Server rendering (writeError / dataErrorToStatus / writeResponse) composed with client parsing (textproto.ReadResponse + toSMTPErr) on "
-          "codes x enhanced-code modes x message shapes x call sites, judged by the normalisation law and compared with the model.",
-          "DESIGN.md 7 C17", "Lean 4 render/parse model + law monitor + differential correspondence (rt, reply, tosmtperr probes)", "C17_roundtrip theorem pending"),
+ "C17": C("Proved: C17_roundtrip (for every reply code 100-999, every enhanced code of non-negative numbers and EVERY message text - any "
+          "number of lines, empty lines, lines that look like an enhanced code - the reply writeResponse renders is read back by "
+          "readResponse + toSMTPErr as an equal SMTPError), render_lines (what is written is exactly those lines, the enhanced code on each), "
+          "C17_unset_class (unset => X.0.0 of the reply's class), C17_generic_envelope (451 4.0.0 text), C17_generic_data (554 5.0.0 Error: "
+          "transaction failed: text). Implementation: server rendering composed with client parsing on codes x enhanced-code modes x message "
+          "shapes x call sites (rt probe), both halves separately (reply, tosmtperr probes), and the real client against the real server with a "
+          "scripted refusing backend (e2e probe), judged by the normalisation law and compared with the model.",
+          "DESIGN.md 0.3 + 7 C17", "Lean 4 proof (render o parse) + law monitor + differential correspondence (rt, reply, tosmtperr, e2e probes)",
+          "replies without any enhanced code on the wire (NoEnhancedCode) are outside the theorem (ambiguous on the wire) and decided by the law judge; the split of the octet stream into lines (textproto.ReadLine) is modelled, not proved"),
  "C18": C("LMTP client transactions (1-3 per connection, refused recipients, verdict vectors, with/without callback) judged (callbacks are the "
           "current transaction's recipients) and compared with the Lean client model.",
           "DESIGN.md 7 C18", "Lean 4 client model + monitor + differential correspondence (cconv probe)", "theorem pending"),
@@ -98,7 +104,7 @@ CLAIMED = {
 }
 # properties whose check audits at least one machine-checked theorem today (the others are claimed at the level of
 # their correspondence/monitor check until their theorems land)
-PROVED = {"C01", "C02", "C04", "C06", "C07", "C09", "C10", "C12", "C14", "C15", "C16", "C19", "C20"}
+PROVED = {"C01", "C02", "C04", "C06", "C07", "C09", "C10", "C12", "C14", "C15", "C16", "C17", "C19", "C20"}
 NA_REASON = "check not built yet (work in progress, see DESIGN.md section 10)"
 
 m = {"version": 1, "setup_cmd": "./setup.sh",
